@@ -479,6 +479,57 @@ def treatRun (hiOff : Int) (cap : Option Nat) (p : Rat) (rows : List TxRow) :
     let rs := treatRun hiOff cap p rows xs r.2
     (r.1 :: rs.1, rs.2)
 
+/-! ### Rule-driven histories: WHICH evaluation of the eligibility rule a step works with (round 3)
+
+`treatNumStep` takes the two eligibility lists as given.  In a run they are results of the user's rule, and the rule may
+answer differently from step to step (an enrolment window that closes, a programme on alternate steps, this step's
+screened agents).  The property speaks of the rule's answer on the step of delivery, so the model says where the lists
+come from: the evaluation made in the delivering function on this step, or a value kept on the object earlier. -/
+
+/-- The source of the eligibility a delivering function works with. -/
+inductive EligSrc
+  | fresh    -- the result of `self.check_eligibility()` called in the delivering function, on this step
+  | stored   -- a value kept on the object by an earlier evaluation
+  deriving DecidableEq, Repr
+
+def eligUsed (src : EligSrc) (kept now : List Nat) : List Nat :=
+  match src with
+  | .fresh => now
+  | .stored => kept
+
+/-- one step of a rule-driven `treat_num` run: `elig` is the rule's answer ON THIS STEP -/
+structure TreatRuleIn where
+  active : List Nat
+  elig : Elig
+  draw : Nat → Rat
+  effDraw : Nat → Nat → Rat
+
+/-- treatment state plus the eligibility list kept from the previous evaluation (read only by a `stored` source) -/
+structure TreatRunState where
+  st : TreatState
+  kept : List Nat
+
+/-- `treat_num.step` in a run: the rule is evaluated on this step; `srcAdd` / `srcNow` say what `get_accept_inds` and the
+    `still_eligible` re-check of `BaseTreatment.step` actually use (regenerated from the source in Props/C20). -/
+def treatRuleStep (srcAdd srcNow : EligSrc) (hiOff : Int) (cap : Option Nat) (p : Rat) (rows : List TxRow)
+    (x : TreatRuleIn) (s : TreatRunState) : Except Err (List Nat × TreatRunState) :=
+  match checkEligibility x.active x.elig with
+  | .error e => .error e
+  | .ok el =>
+    let r := treatNumStep hiOff cap p rows x.active (eligUsed srcAdd s.kept el) (eligUsed srcNow s.kept el) x.draw x.effDraw s.st
+    .ok (r.1, ⟨r.2, el⟩)
+
+def treatRuleRun (srcAdd srcNow : EligSrc) (hiOff : Int) (cap : Option Nat) (p : Rat) (rows : List TxRow) :
+    List TreatRuleIn → TreatRunState → Except Err (List (List Nat) × TreatRunState)
+  | [], s => .ok ([], s)
+  | x :: xs, s =>
+    match treatRuleStep srcAdd srcNow hiOff cap p rows x s with
+    | .error e => .error e
+    | .ok (t, s1) =>
+      match treatRuleRun srcAdd srcNow hiOff cap p rows xs s1 with
+      | .error e => .error e
+      | .ok (ts, s2) => .ok (t :: ts, s2)
+
 /-! ### Transmission to one agent (the part of the kernel C20 needs; the full kernel is C12's) -/
 
 /-- an edge transmits when the uniform draw is below `beta * rel_trans[src] * rel_sus[trg]` -/
